@@ -269,6 +269,12 @@ impl ScriptFs {
         }
     }
 
+    /// the file double of the zero-copy probe: content `pat(seed, offset)`, scripted short answers
+    pub fn zc_file(&self) -> crate::xscript::FullFile {
+        let chunks: Vec<crate::xscript::Ans> = ks(&self.kv, "zc").split(',').filter_map(|x| x.parse::<usize>().ok()).map(crate::xscript::Ans::N).collect();
+        crate::xscript::FullFile(crate::xscript::Core::new(&chunks, kn(&self.kv, "seed")))
+    }
+
     pub fn do_read(&self, w: &mut dyn io::Write) -> io::Result<usize> {
         if let Some(e) = self.err() {
             return Err(e);
@@ -433,10 +439,27 @@ impl FileSystem for ScriptFs {
 
     fn read(&self, ctx: &Context, inode: u64, handle: u64, w: &mut dyn ZeroCopyWriter, size: u32, offset: u64, lock_owner: Option<u64>, flags: u32) -> io::Result<usize> {
         self.record("read", ctx, &[inode.to_string(), handle.to_string(), size.to_string(), offset.to_string(), show_opt(lock_owner), flags.to_string()]);
+        if self.ans() == "zc" {
+            // zero-copy probe: the data comes from a file that answers short (scripted chunk
+            // sizes), through the trait's own `write_all_from`
+            let mut f = self.zc_file();
+            w.write_all_from(&mut f, size as usize, offset)?;
+            return Ok(size as usize);
+        }
         self.do_read(w)
     }
 
     fn write(&self, ctx: &Context, inode: u64, handle: u64, r: &mut dyn ZeroCopyReader, size: u32, offset: u64, lock_owner: Option<u64>, delayed_write: bool, flags: u32, fuse_flags: u32) -> io::Result<usize> {
+        if self.ans() == "zc" {
+            // zero-copy probe: the payload goes to a file that takes it in short pieces, through
+            // the trait's own `read_exact_to`
+            let mut f = self.zc_file();
+            let res = r.read_exact_to(&mut f, size as usize, offset);
+            let offs: Vec<String> = f.0.offs.iter().map(|o| o.map(|x| x.to_string()).unwrap_or_else(|| "-".into())).collect();
+            TAP.with(|t| t.borrow_mut().push(format!("zc-write:{}:{}", hex(&f.0.got), offs.join(","))));
+            res?;
+            return Ok(size as usize);
+        }
         let payload = self.do_write_payload(r, size);
         self.record("write", ctx, &[inode.to_string(), handle.to_string(), format!("x{}", hex(&payload)), size.to_string(), offset.to_string(), show_opt(lock_owner), b(delayed_write).into(), flags.to_string(), fuse_flags.to_string()]);
         self.count().map(|c| c as usize)
